@@ -10,6 +10,16 @@ CHECKS = {
  "C01": ("bounded exhaustive input enumeration (seeds x all gap/trivia substitutions, all token soups <= n, all library sentences <= n) with a tiling invariant evaluated on every accepted tree",
          "Every input of a stated finite space is parsed through the real entry points and the lossless-tiling invariant (offset chain, char boundaries, line numbers, get_str of every node) is evaluated on every accepted tree; no sampling.",
          "Trusted: the harness, preprocess_str as provider of the reference text, the vendored seeds for reach. Bounds in evidence.parts."),
+
+ "C12": ("bounded exhaustive enumeration: every accepted seed x 16 trivia forms x (all gaps | each single gap | `resetall before each description), 8 rejected probes x all ordered pairs of 20 leading forms; oracle = acceptance and whitespace-free skeleton equal to the original's",
+         "Every (program, gap assignment) of the stated finite space is parsed by the real parser and compared with the original parse; no sampling.",
+         "Trusted: the harness; the token/gap layout is derived from the accepted tree of the original; the blank ending an escaped identifier / bare library path is part of that token. Two known findings (form feed, memo eviction) are matched by re-execution signatures."),
+ "C15": ("bounded exhaustive enumeration of sources (seeds, seeds cut after every token, all token soups <= n, library sentences) each parsed in strict and incomplete mode; invariant + differential oracle",
+         "Every source of the stated finite space is parsed in both modes; incomplete must not return Error::Parse, must tile a prefix, must equal strict where strict accepts, and must be insensitive to 4 appended junk suffixes.",
+         "Trusted: the harness; junk suffixes (\\x01, ), ], \\x7f) are assumed unable to start or complete a description."),
+ "C16": ("exhaustive per-node exploration of every accepted tree of the enumerated sources: event discipline, sub-iteration vs slice of the root pre-order, unwrap_node!/unwrap_locate! vs first match, get_str_trim vs recomputed span, and an independent pre-order taken from derive(Debug)",
+         "All trees of the stated finite input space, and in each tree all nodes, are checked against an independently computed pre-order; no sampling (quick tier strides nodes of trees > 400 nodes).",
+         "Trusted: the harness; std's derive(Debug) field order as independent reference for struct nodes and leaves; node identity compared as (kind, leaf position)."),
 }
 PENDING = {}
 
